@@ -3,9 +3,9 @@
 M  Crosstab.tla: every raster of the small scopes is an initial state; the zone loop of _crosstab_numpy and the
    category loop of _single_zone_crosstab_2d (running cat_start, zone_cat_breaks) / _3d run as a state machine;
    CatStartIsOffset, RowLabelsOwnZone, IsContingency, RestrictionIsSubmatrix, RowsSumTo100 ... are invariants.
-   The model of the code AS IT IS holds on the selections the test fixtures use (all categories, ascending
-   zone_ids) and is refuted by TLC on proper cat_ids subsets and on non-ascending zone_ids (DESIGN section 8
-   defects 2 and 3); the repaired variant {"catstart","labels"} holds for every list.  Negative twins rejected.
+   The positive model is the code of today, variant {"dropneginf","catstart","labels"} (fixes 7d7d291, a1fb154,
+   2bd4c42), for every zone_ids / cat_ids list.  Each pre-fix variant (one repair taken out) is a negative twin
+   that TLC must refute, next to five other twins.
 R  the same complete enumerations through the real zonal.crosstab (2-D count / percentage, zone_ids / cat_ids
    subsets, permutations, absent ids, nodata; 3-D with the seven aggregates), the per-zone helper recorded;
    Crosstab_Judge.tla decides every observed table.
@@ -29,12 +29,12 @@ CLISTS = U.lists_over(CIDS)
 AGG3 = ["mean", "max", "min", "sum", "std", "var", "count"]
 INV = ["TypeOK", "CatStartIsOffset", "ZoneValsAreZone", "WellFormed", "RowsAndColsOK", "RowLabelsOwnZone",
        "IsContingency", "RestrictionIsSubmatrix", "RowsSumTo100", "MachineIsAlg"]
-FIXED = '{"catstart", "labels"}'
-CODEVARIANT = "{}"      # the variant of the transcription describing /repo today
+TODAY = '{"dropneginf", "catstart", "labels"}'     # /repo today (after fixes 7d7d291, a1fb154, 2bd4c42)
+CODEVARIANT = TODAY
 
 
 # ------------------------------------------------------------------------------------------- M
-def mc(ctx, name, dim, rasters, sels, cats="<<>>", variant="{}", mut="none", expect="ok", inv=None):
+def mc(ctx, name, dim, rasters, sels, cats="<<>>", variant=TODAY, mut="none", expect="ok", inv=None):
     cfg = dict(spec="Spec", invariants=inv or INV, constants=dict(
         DIM=dim, Rasters=R(rasters), CATS=R(cats), Selections=R(sels), VARIANT=R(variant), MUT=mut))
     return U.checked_mc(ctx, "Crosstab", cfg, name, expect)
@@ -42,49 +42,53 @@ def mc(ctx, name, dim, rasters, sels, cats="<<>>", variant="{}", mut="none", exp
 
 def model_checks(ctx):
     za, va = U.tla_set(ZC), U.tla_set(VC)
+    zan = "{NINF, 2, 4, NAN}"
     lz, lc = "ListsOver({2, 4, 6, 14})", "ListsOver({0, 1, 2, 7})"
     both = '{"count", "percentage"}'
-    benign = ('Sels({NONE, 1}, {AllReq, [all |-> FALSE, ids |-> <<2, 6>>], [all |-> FALSE, ids |-> <<4, 14>>]}, '
-              '{AllReq, [all |-> FALSE, ids |-> <<2, 7, 0, 1>>]}, %s)' % both)
-    benign_small = 'Sels({NONE}, {AllReq, [all |-> FALSE, ids |-> <<2, 6>>]}, {AllReq}, {"percentage"})'
+
+    def req(l):
+        return "[all |-> FALSE, ids |-> %s]" % l
+    main = ('Sels({NONE, 1}, {AllReq, %s}, {AllReq, %s, %s}, %s)'
+            % (req("<<6, 2, 14>>"), req("<<2>>"), req("<<1, 7, 0>>"), both))
+    hard = 'Sels({1}, {AllReq, %s}, {AllReq, %s, %s}, {"percentage"})' % (req("<<6, 2>>"), req("<<2>>"), req("<<1, 0>>"))
     every_list = ('(Sels({1}, {AllReq}, Reqs(%s), %s) \\cup Sels({NONE}, Reqs(%s), {AllReq}, {"count"}) \\cup '
                   'Sels({NONE}, Reqs({<<6, 2>>, <<4>>, <<14, 6, 4>>}), Reqs({<<1>>, <<2, 0>>, <<7, 2>>}), %s))'
                   % (lc, both, lz, both))
-    hard = ('Sels({1}, {AllReq, [all |-> FALSE, ids |-> <<6, 2>>]}, '
-            '{AllReq, [all |-> FALSE, ids |-> <<2>>], [all |-> FALSE, ids |-> <<1, 0>>]}, {"percentage"})')
-    s3d = ('Sels({NONE, 2}, {AllReq, [all |-> FALSE, ids |-> <<4>>]}, {AllReq, [all |-> FALSE, ids |-> <<3>>], '
-           '[all |-> FALSE, ids |-> <<3, 9, 5>>]}, {"mean", "max", "min", "sum", "std", "var", "count"})')
+    s3d = ('Sels({NONE, 2}, {AllReq, %s}, {AllReq, %s, %s}, {"mean", "max", "min", "sum", "std", "var", "count"})'
+           % (req("<<4, 2>>"), req("<<3>>"), req("<<3, 9, 5>>")))
     thorough = ctx.tier == "thorough"
-    # (a) the code as it is, on the selections the fixtures use: every invariant holds
-    mc(ctx, "asis_benign_n3", 2, "AllRasters2D(3, %s, %s)" % (za, va), benign)
-    mc(ctx, "asis_benign_multiset5", 2,
-       "MultisetRasters2D(5, %s, %s, <<4, 1, 5, 2, 3>>)" % (U.tla_seq(ZC), U.tla_seq(VC)), benign_small)
-    mc(ctx, "asis_3d_n2", 3, "AllRasters3D(2, {2, 4, NAN}, {0, 2, NAN})", s3d, cats="<<5, 3>>")
-    # (b) the code as it is on the selections of the property: TLC finds both defects of DESIGN section 8
-    r = mc(ctx, "asis_cat_subsets_n2", 2, "AllRasters2D(2, %s, %s)" % (za, va),
-           'Sels({NONE}, {AllReq}, Reqs(%s), {"count"})' % lc, expect="violation")
-    ctx.note("M: on the model of the code as it is TLC refutes %s for a proper cat_ids subset "
-             "(cat_start is only advanced for selected categories)" % r.invariant_violated)
-    r = mc(ctx, "asis_zone_orders_n2", 2, "AllRasters2D(2, %s, %s)" % (za, va),
-           'Sels({NONE}, Reqs(%s), {AllReq}, {"count"})' % lz, expect="violation")
-    ctx.note("M: on the model of the code as it is TLC refutes %s for zone_ids in non-ascending order "
-             "(rows computed in unique_zones order, labelled in request order)" % r.invariant_violated)
-    # (c) the repaired variant holds for every list
-    mc(ctx, "fixed_every_list_n2", 2, "AllRasters2D(2, %s, %s)" % (za, va), every_list, variant=FIXED)
+    # the code of today: every invariant holds, for proper cat_ids subsets and non-ascending zone_ids too
+    mc(ctx, "today_n3", 2, "AllRasters2D(3, %s, %s)" % (za, va), main)
+    mc(ctx, "today_neginf_n3", 2, "AllRasters2D(3, %s, {0, 1, NAN})" % zan, hard)
+    mc(ctx, "today_3d_n2", 3, "AllRasters3D(2, {2, 4, NAN}, {0, 2, NAN})", s3d, cats="<<5, 3>>")
+    mc(ctx, "today_every_list_n2", 2, "AllRasters2D(2, %s, %s)" % (za, va), every_list)
     if thorough:
-        mc(ctx, "asis_benign_n4", 2, "AllRasters2D(4, %s, %s)" % (za, va),
-           'Sels({1}, {AllReq, [all |-> FALSE, ids |-> <<2, 6>>]}, {AllReq, [all |-> FALSE, ids |-> <<2, 7, 0, 1>>]}, %s)'
-           % both)
-        mc(ctx, "fixed_every_list_n3", 2, "AllRasters2D(3, {2, 4, 6}, %s)" % va, every_list, variant=FIXED)
-        mc(ctx, "fixed_multiset6", 2,
-           "MultisetRasters2D(6, %s, %s, <<4, 1, 5, 2, 6, 3>>)" % (U.tla_seq(ZC), U.tla_seq(VC)), hard, variant=FIXED)
-        mc(ctx, "asis_3d_n3", 3, "AllRasters3D(3, {2, 4}, {0, 2, NAN})", s3d, cats="<<5, 3>>")
-    # negative twins
+        mc(ctx, "today_multiset5", 2,
+           "MultisetRasters2D(5, %s, %s, <<4, 1, 5, 2, 3>>)" % (U.tla_seq(ZC), U.tla_seq(VC)), hard)
+        mc(ctx, "today_n4", 2, "AllRasters2D(4, %s, %s)" % (za, va),
+           'Sels({1}, {AllReq, %s}, {AllReq, %s}, %s)' % (req("<<6, 2>>"), req("<<2, 7, 0>>"), both))
+        mc(ctx, "today_every_list_n3", 2, "AllRasters2D(3, {2, 4, 6}, %s)" % va, every_list)
+        mc(ctx, "today_multiset6", 2,
+           "MultisetRasters2D(6, %s, %s, <<4, 1, 5, 2, 6, 3>>)" % (U.tla_seq(ZC), U.tla_seq(VC)), hard)
+        mc(ctx, "today_3d_n3", 3, "AllRasters3D(3, {2, 4}, {0, 2, NAN})", s3d, cats="<<5, 3>>")
+        mc(ctx, "today_3d_neginf_n2", 3, "AllRasters3D(2, {NINF, 2, 4}, {0, 2, NAN})", s3d, cats="<<5, 3>>")
+    # negative twins.  (1) the pre-fix variants: one repair taken out, TLC must find the defect of DESIGN section 8
+    r = mc(ctx, "prefix_cat_subsets_n2", 2, "AllRasters2D(2, %s, %s)" % (za, va),
+           'Sels({NONE}, {AllReq}, Reqs(%s), {"count"})' % lc, variant='{"dropneginf", "labels"}', expect="violation")
+    ctx.note("M: without repair 'catstart' (a1fb154) TLC refutes %s for a proper cat_ids subset" % r.invariant_violated)
+    r = mc(ctx, "prefix_zone_orders_n2", 2, "AllRasters2D(2, %s, %s)" % (za, va),
+           'Sels({NONE}, Reqs(%s), {AllReq}, {"count"})' % lz, variant='{"dropneginf", "catstart"}', expect="violation")
+    ctx.note("M: without repair 'labels' (2bd4c42) TLC refutes %s for zone_ids in non-ascending order" % r.invariant_violated)
+    r = mc(ctx, "prefix_neginf_n2", 2, "AllRasters2D(2, %s, {0, 1, NAN})" % zan,
+           'Sels({NONE}, {AllReq}, {AllReq}, {"count"})', variant='{"catstart", "labels"}', expect="violation")
+    ctx.note("M: without repair 'dropneginf' (7d7d291) TLC refutes %s as soon as a zone cell is -inf" % r.invariant_violated)
+    # (2) vacuity guards
     small = "AllRasters2D(3, {2, 4, NAN}, {0, 1, NAN, PINF})"
     for mut in ("lastcell", "noinf", "nosort", "startsel"):
-        mc(ctx, "neg_" + mut, 2, small, benign, mut=mut, expect="violation")
+        mc(ctx, "neg_" + mut, 2, small, 'Sels({NONE, 1}, {AllReq, %s}, {AllReq}, %s)' % (req("<<4, 14>>"), both),
+           mut=mut, expect="violation")
     mc(ctx, "neg_totalsel", 2, small, 'Sels({NONE}, {AllReq}, {[all |-> FALSE, ids |-> <<1>>]}, {"percentage"})',
-       variant=FIXED, mut="totalsel", expect="violation")
+       mut="totalsel", expect="violation")
     ctx.exhaustive = True
 
 
@@ -109,8 +113,8 @@ def benign_cat_list(rng, universe):
 
 
 def selection(rng, kind, zlists, clists, present_z, present_c):
-    """kind: 'plain' (None/None) | 'benign' (outside both defect classes) | 'cats' (any cat list, benign zones)
-    | 'zones' (any zone list, benign cats)."""
+    """kind: 'plain' (None/None) | 'benign' (outside both former defect classes) | 'cats' (any cat list, ascending
+    zones) | 'zones' (any zone list, benign cats) | 'mixed' (any zone list, any cat list)."""
     zall, call, zids, cids = True, True, [], []
     if kind == "plain":
         return zall, zids, call, cids
@@ -147,7 +151,7 @@ def crosstab_job(rng, z, layers, H, W, kind, dim=2, vs=1, nds=(NONE, NONE, 0, 1,
             "steps": backend == "numpy", "tag": tag}
 
 
-KINDS = ["plain", "benign", "benign", "cats", "zones"]
+KINDS = ["plain", "benign", "cats", "zones", "mixed"]
 
 
 def enum_jobs_2d(seed, n, zalpha, valpha, per_raster, tag):
@@ -188,7 +192,6 @@ def enum_jobs_3d(seed, n, zalpha, valpha, cats, tag, every_agg):
             H, W = shp[k % len(shp)]
             for agg in (AGG3 if every_agg else [AGG3[k % 7]]):
                 kind = KINDS[(k + len(agg)) % len(KINDS)]
-                kind = "benign" if kind == "cats" else kind      # 3-D has no running offset; keep zones exclusive
                 j = crosstab_job(rng, z, vv, H, W, kind, dim=3, nds=(NONE, NONE, 2, NAN), zlists=zl, clists=clists,
                                  cats=cats, aggs=(agg,), tag=tag, layer=rng.choice([0, 0, 2]))
                 if not j["call"]:
@@ -250,11 +253,7 @@ def random_jobs(seed, count, backend="numpy", tag="random"):
             clists = [rng.sample(ccand, rng.randrange(0, len(ccand) + 1)) for _ in range(6)]
             nds = [NONE, NONE, NAN, rng.choice(vals), 0]
             aggs = tuple(AGG3) if backend == "numpy" else ("count",)
-        kind = rng.choice(KINDS + KINDS + ["mixed"])
-        if NINF in z:
-            kind = rng.choice(["plain", "benign"])          # keep the defect classes disjoint
-        if dim == 3 and kind == "cats":
-            kind = "benign"
+        kind = rng.choice(KINDS)
         j = crosstab_job(rng, z, layers, H, W, kind, dim=dim, vs=vs, nds=nds, zlists=zlists, clists=clists,
                          cats=cats, aggs=aggs, backend=backend, tag=tag, layer=rng.choice([0, 0, 2]) if dim == 3 else 0)
         if dim == 3 and not j["call"]:
@@ -291,7 +290,15 @@ def in_zone_order_class(case):
     return req != sorted(req)
 
 
-def classify(case, clause):
+CLASS_OF_REPAIR = {"like_without_dropneginf": "crosstab:neginf-zone",
+                   "like_without_labels": "crosstab:zone_ids-non-ascending",
+                   "like_without_catstart": "crosstab:cat_ids-proper-subset"}
+
+
+def classify(case, clause, diagnosis=None):
+    """stable key of a rejected case.  Predicates on the CASE select the known classes (the three defects that were
+    repaired by 7d7d291 / 2bd4c42 / a1fb154); only when a case belongs to several of them, TLC's diagnosis (which
+    single repair, taken out of the transcription, reproduces the observed table) chooses among THOSE classes."""
     classes = []
     if NINF in case["z"]:
         classes.append("crosstab:neginf-zone")
@@ -303,11 +310,8 @@ def classify(case, clause):
         return "crosstab:%s" % clause
     if len(classes) == 1:
         return classes[0]
-    # a case in several known classes: the clause picks among THOSE classes only
-    if clause == "row_labelled_with_another_zone" and "crosstab:zone_ids-non-ascending" in classes:
-        return "crosstab:zone_ids-non-ascending"
-    if clause.startswith("entry_") and "crosstab:cat_ids-proper-subset" in classes:
-        return "crosstab:cat_ids-proper-subset"
+    if CLASS_OF_REPAIR.get(diagnosis) in classes:
+        return CLASS_OF_REPAIR[diagnosis]
     return classes[0]
 
 
@@ -323,8 +327,6 @@ def outside_domain(case):
         for k in lsel:
             if not any(a == zz and U.finite(b) and b != nd for a, b in zip(case["z"], case["vs"][k])):
                 return True
-    if NINF in case["z"] and zsel and lsel:      # shifted slices can be empty too (defect 1)
-        return True
     return False
 
 
@@ -353,7 +355,10 @@ def handle(ctx, fails, cases, verdicts, kind):
             if outside_domain(case):
                 ctx.extra["outside_domain_empty_min_max"] = ctx.extra.get("outside_domain_empty_min_max", 0) + 1
                 continue
-            fails.add("crosstab:call-raised:%s" % case["error"].split(":")[0], "call_raised", case,
+            key = "crosstab:call-raised:%s" % case["error"].split(":")[0]
+            if NINF in case["z"] and case["dim"] == 3 and "zero-size" in case["error"]:
+                key = "crosstab:neginf-zone"       # slices shifted by -inf cells can lose all their valid values
+            fails.add(key, "call_raised", case,
                       case["error"][:160] + " " + desc)
             continue
         cl = verdicts.get(i, "missing")
@@ -362,13 +367,13 @@ def handle(ctx, fails, cases, verdicts, kind):
             ctx.nontrivial(hash((case["dim"], tuple(case["z"]), tuple(map(tuple, case["vs"])), case["nd"],
                                  case["zall"], tuple(case["zids"]), case["call"], tuple(case["cids"]), case["agg"])))
         if cl != "ok":
-            fails.add(classify(case, cl), cl, case, desc + " rows=%s cols=%s table=%s" % (case["rows"], case["cols"],
+            fails.add(classify(case, cl, dr), cl, case, desc + " rows=%s cols=%s table=%s" % (case["rows"], case["cols"],
                                                                                          case["tab"]))
         if dr and dr.startswith("drift"):
             ctx.report_drift("transcription of _crosstab_numpy vs code: %s on %s" % (dr, desc))
 
 
-def run_batch(ctx, fails, jobs, name, kind, size=60000):
+def run_batch(ctx, fails, jobs, name, kind, size=80000):
     done = 0
     for part in U.chunks(jobs, size):
         cases = core.run_jobs("zonal_worker", part, nproc=U.nproc_for(part))
@@ -437,17 +442,18 @@ def run(ctx):
     # ---- R: complete enumerations through the real code
     jobs = enum_jobs_2d(ctx.seed, 3, ZC, VC, per_raster=5, tag="all_n3")
     scope_check(ctx, jobs, 3, ZC, VC, 1, "scope_n3")
-    run_batch(ctx, fails, jobs, "replay_n3", "R")
-    run_batch(ctx, fails, multiset_jobs_2d(ctx.seed + 1, ctx.pick(5, 6), ZC, VC, "multiset"), "replay_multiset", "R")
-    jobs = enum_jobs_3d(ctx.seed + 2, 2, [2, 4, NAN], [0, 2, NAN], [5, 3], "all_3d_n2", every_agg=True)
-    scope_check(ctx, jobs, 2, [2, 4, NAN], [0, 2, NAN], 2, "scope_3d_n2")
-    run_batch(ctx, fails, jobs, "replay_3d_n2", "R")
+    jobs3 = enum_jobs_3d(ctx.seed + 2, 2, [2, 4, NAN], [0, 2, NAN], [5, 3], "all_3d_n2", every_agg=True)
+    scope_check(ctx, jobs3, 2, [2, 4, NAN], [0, 2, NAN], 2, "scope_3d_n2")
+    jobs += jobs3
+    jobs += multiset_jobs_2d(ctx.seed + 1, ctx.pick(5, 6), ZC, VC, "multiset")
+    # ---- T: seeded larger rasters (same worker processes / judge JVMs as R: start-up dominates the quick tier)
+    jobs += random_jobs(ctx.seed, ctx.pick(1500, 40000))
+    run_batch(ctx, fails, jobs, "replay_and_random", "R/T")
     if thorough:
         run_batch(ctx, fails, enum_jobs_2d(ctx.seed + 3, 4, ZC, VC, per_raster=2, tag="all_n4"), "replay_n4", "R")
         run_batch(ctx, fails, enum_jobs_3d(ctx.seed + 4, 3, [2, 4, NAN], [0, 2, NAN], [5, 3], "all_3d_n3",
                                            every_agg=False), "replay_3d_n3", "R")
-    # ---- T: seeded larger rasters, and a single-chunk dask sample
-    run_batch(ctx, fails, random_jobs(ctx.seed, ctx.pick(1500, 40000)), "random", "T")
+    # ---- a single-chunk dask sample
     run_batch(ctx, fails, random_jobs(ctx.seed, ctx.pick(40, 600), backend="dask", tag="dask"), "dask", "T-dask")
     fails.report()
 
